@@ -70,24 +70,34 @@ func uciSession(lines []string) (string, bool) {
 	d := uci.NewDriver(uci.WithInput(pr), uci.WithOutput(out), uci.WithError(&errb), uci.WithSearch(search.New(1<<20)))
 	done := make(chan struct{})
 	go func() { d.Run(); close(done) }()
-	ok := true
-	gos := 0
-	for _, ln := range lines {
-		io.WriteString(pw, ln+"\n")
-		if strings.HasPrefix(ln, "go") {
-			gos++
-			if !out.waitFor("bestmove", gos, 120*time.Second) {
-				ok = false
-				break
+	okc := make(chan bool, 1)
+	// the feeder runs on its own goroutine: a driver that stops reading must not hang the harness
+	go func() {
+		ok := true
+		gos := 0
+		for _, ln := range lines {
+			io.WriteString(pw, ln+"\n")
+			if strings.HasPrefix(ln, "go") {
+				gos++
+				if !out.waitFor("bestmove", gos, 120*time.Second) {
+					ok = false
+					break
+				}
 			}
 		}
-	}
-	io.WriteString(pw, "quit\n")
-	pw.Close()
+		io.WriteString(pw, "quit\n")
+		pw.Close()
+		okc <- ok
+	}()
+	ok := false
 	select {
-	case <-done:
-	case <-time.After(120 * time.Second):
-		ok = false
+	case ok = <-okc:
+		select {
+		case <-done:
+		case <-time.After(120 * time.Second):
+			ok = false
+		}
+	case <-time.After(300 * time.Second):
 	}
 	return out.String(), ok
 }
